@@ -76,6 +76,16 @@ func (c *c07Oracle) Check(w *World, o *Obs) []Violation {
 				if v, ok := hasPut(o.SessEvents, authboss.SessionHalfAuthKey); !ok || v != "true" || o.SessAfter[authboss.SessionHalfAuthKey] != "true" {
 					out = append(out, viol("C07", "no_halfauth_mark", "middleware", o, fmt.Sprintf("cookie login of %q did not mark the session half-authenticated", pid)))
 				}
+				// "marks the session as half-authenticated": also for the very
+				// request the cookie authenticated - a guard asking for full
+				// authentication must refuse it
+				if path := st.str("path"); o.Probe != nil && o.Probe.Ran &&
+					(strings.HasPrefix(path, "/probe/mw/1/") || strings.HasPrefix(path, "/probe/mw/3/") || strings.HasPrefix(path, "/probe/legacy/1/") || strings.HasPrefix(path, "/probe/legacy/3/")) {
+					out = append(out, viol("C07", "cookie_request_passed_full_auth", "middleware", o,
+						fmt.Sprintf("the request the cookie of %q authenticated was served behind a guard that asks for full authentication (%s)", pid, path)))
+				} else if strings.HasPrefix(path, "/probe/mw/1/") || strings.HasPrefix(path, "/probe/mw/3/") {
+					w.Stats.Reach["c07_cookie_request_refused_by_full_auth_guard"]++
+				}
 				nv := o.CookAfter["rm"]
 				if nv == "" || nv == cookie.Value {
 					out = append(out, viol("C07", "not_rotated", "middleware", o, fmt.Sprintf("cookie login of %q did not replace the cookie by a fresh one", pid)))
